@@ -423,6 +423,7 @@ func (e *cloneSetEnv) Project(w *World) map[string]interface{} {
 		"stRepl":    int(cs.Status.Replicas),
 		"rid":       cs.Labels["rollouts.kruise.io/rollout-id"],
 		"lab":       lab,
+		"labelled":  labelledFor(e.pods(w), workloadRolloutID(cs.Labels["rollouts.kruise.io/rollout-id"], RevOf(cs.Status.UpdateRevision))),
 	}
 }
 
@@ -446,4 +447,23 @@ func podLabelSummary(pods []*corev1.Pod, upd int) []string {
 	}
 	sort.Strings(out)
 	return out
+}
+
+// workloadRolloutID mirrors getRolloutID: the rollout-id label, else the canary revision suffix.
+func workloadRolloutID(label string, updRev int) string {
+	if label != "" {
+		return label
+	}
+	return fmt.Sprintf("v%d", updRev)
+}
+
+// labelledFor counts live pods carrying rollout-id == rid.
+func labelledFor(pods []*corev1.Pod, rid string) int {
+	n := 0
+	for _, p := range pods {
+		if p.DeletionTimestamp.IsZero() && p.Labels["rollouts.kruise.io/rollout-id"] == rid {
+			n++
+		}
+	}
+	return n
 }
